@@ -35,7 +35,8 @@ type Result struct {
 	Fired     int          `json:"fired"`
 	CommitErr string       `json:"commit_err"`
 	Committed bool         `json:"committed"`
-	WarmDiff  string       `json:"warm_diff"`  // "" = dump equals the state the Commit result demands
+	WarmDiff  string       `json:"warm_diff"` // "" = dump equals the state the Commit result demands
+	Slow      bool         `json:"slow_machine,omitempty"`
 	RetryErr  string       `json:"retry_err"`  // C07: error of the fault-free retry ("" ok / "n/a")
 	RetryDiff string       `json:"retry_diff"` // C07: dump after retry vs after
 	Dir       string       `json:"dir"`
@@ -168,8 +169,15 @@ func runCase(cfg Config, n int, label string, ord int, form string) Result {
 		res.RetryErr = ""
 		if rerr != nil {
 			res.RetryErr = rerr.Error()
+			if (strings.Contains(res.RetryErr, "timed out") || strings.Contains(res.RetryErr, "deadline")) && txn.SlowMachine() {
+				// the 5 s budget was missed while a probe commit on a scratch store was slow too: no verdict
+				res.RetryErr, res.Slow = "n/a", true
+			}
 		}
 		res.RetryDiff = txn.DiffContent(sopx.DumpDB(db), after.Dump())
+		if res.Slow {
+			res.RetryDiff = ""
+		}
 		res.Expect = "after"
 		if rerr != nil {
 			res.Expect = "before"
@@ -224,7 +232,13 @@ func worker(args []string) int {
 		sites = sel
 	}
 	for _, s := range sites {
-		for _, f := range cfg.Forms {
+		forms := cfg.Forms
+		if !contains(forms, "fail-after") && strings.HasPrefix(s.label, "reg.") && s.label != "reg.Get" {
+			// also in the quick tier: a registry write that was applied but reports an error (lost
+			// acknowledgement / late I/O error), at every registry write call of the commit - the flip included
+			forms = append(append([]string(nil), forms...), "fail-after")
+		}
+		for _, f := range forms {
 			// StoreRepository.Update undoes its own partial writes before it returns an error (that is
 			// its contract); "the write happened but the caller is told it failed" cannot come out of the
 			// real implementation, so that form would misrepresent the code at this site.
@@ -384,4 +398,13 @@ func lastBytes(b []byte, n int) []byte {
 		return b[len(b)-n:]
 	}
 	return b
+}
+
+func contains(xs []string, x string) bool {
+	for _, v := range xs {
+		if v == x {
+			return true
+		}
+	}
+	return false
 }
